@@ -29,7 +29,8 @@ Walk(steps, k, st, bad) ==
                                \cup (IF st.disk[x.s] # None /\ o.p = st.disk[x.s].p THEN {} ELSE {"restored_path_identical"})
                                \cup (IF st.disk[x.s] # None /\ o.b = st.disk[x.s].b THEN {} ELSE {"restored_breakdown_equal"}))
                    [] x.op = "recompute" ->
-                      Walk(steps, k + 1, st,
+                      \* the restored object now carries the recomputed path (possibly another longest path, see MC_Persist: Recompute)
+                      Walk(steps, k + 1, IF RecomputeOK(st.restored, x.s, o) THEN [st EXCEPT !.restored[x.s] = o] ELSE st,
                            bad \cup (IF RecomputeOK(st.restored, x.s, o) THEN {} ELSE {"recomputed_weight_equal"})
                                \* several longest paths may exist: recomputing may settle on another one of the same weight (the statement asks for the
                                \* weight only); when it settles on the same path, the breakdown must be the same table again
